@@ -630,6 +630,16 @@ def oracle_capacity(s, r):
         if tag == 'OR':
             kv = parse_kv(rest)
             realw.setdefault(rk, []).append(int(kv.get('hdr', 0)) + int(kv.get('body', 0)))
+    # the send-size theorem (C03_every_physical_send_is_bounded): without broadcasts no physical send exceeds capacity + 2 x the
+    # largest message on the wire
+    has_bcast = any(a and a[0] == 'B' for prog in list(s.main.values()) + list(s.msg.values()) + list(s.cb.values()) for a in prog)
+    allw = [w for ws in realw.values() for w in ws]
+    if not has_bcast and allw and r.get('posts'):
+        lim = cap + 2 * max(allw)
+        big = [p for p in r['posts'] if p[1] == 'POST' and p[6] > lim]
+        if big:
+            bad.append(fail(s, r, 'a physical send of %d bytes from rank %d exceeds capacity + 2 x largest message = %d (RankSendBoundAll.every_send_is_bounded does not hold on this run)' % (
+                big[0][6], big[0][3], lim), level='model'))
     if s.kind == 'stream':
         snd = s.meta['stream']['sender']
         one = max(realw.get(snd, []) + [0]) or s.meta['stream']['maxwire']
